@@ -39,15 +39,18 @@ pub struct Tuple {
     /// a signal (SIGTERM, SIGINT, SIGHUP) delivered to `run` / `execute` just before one of its writes to stdout: the run may die
     /// of it or fail; a run that exits 0 printed everything
     pub run_signal: Option<String>,
+    /// stdout of `run` / `execute` is a terminal (a pseudo-terminal under script(1)) instead of a pipe: the bytes a program prints
+    /// may not depend on what kind of thing reads them
+    pub stdout_tty: bool,
 }
 
 impl Tuple {
     pub fn baseline() -> Tuple {
-        Tuple { profile: Profile::Debug, hash_seed: 1, clock: None, junk: 0, env: vec![], aslr: false, via_stdin: false, argv0: None, nested_cwd: false, stale_outputs: false, io_plan: String::new(), dev_stdin_pipe: false, overlap_compile: None, run_signal: None }
+        Tuple { profile: Profile::Debug, hash_seed: 1, clock: None, junk: 0, env: vec![], aslr: false, via_stdin: false, argv0: None, nested_cwd: false, stale_outputs: false, io_plan: String::new(), dev_stdin_pipe: false, overlap_compile: None, run_signal: None, stdout_tty: false }
     }
     pub fn to_json(&self) -> Value {
         json!({"profile": self.profile.name(), "hash_seed": self.hash_seed, "clock": self.clock, "junk": self.junk, "env": self.env,
-               "aslr": self.aslr, "via_stdin": self.via_stdin, "argv0": self.argv0, "nested_cwd": self.nested_cwd, "stale_outputs": self.stale_outputs, "io_plan": self.io_plan, "dev_stdin_pipe": self.dev_stdin_pipe, "overlap_compile": self.overlap_compile, "run_signal": self.run_signal})
+               "aslr": self.aslr, "via_stdin": self.via_stdin, "argv0": self.argv0, "nested_cwd": self.nested_cwd, "stale_outputs": self.stale_outputs, "io_plan": self.io_plan, "dev_stdin_pipe": self.dev_stdin_pipe, "overlap_compile": self.overlap_compile, "run_signal": self.run_signal, "stdout_tty": self.stdout_tty})
     }
     pub fn from_json(v: &Value) -> Option<Tuple> {
         let mut env = Vec::new();
@@ -69,6 +72,7 @@ impl Tuple {
             dev_stdin_pipe: v.get("dev_stdin_pipe").and_then(|x| x.as_bool()).unwrap_or(false),
             overlap_compile: v.get("overlap_compile").and_then(|x| x.as_str()).map(|s| s.to_string()),
             run_signal: v.get("run_signal").and_then(|x| x.as_str()).map(|s| s.to_string()),
+            stdout_tty: v.get("stdout_tty").and_then(|x| x.as_bool()).unwrap_or(false),
         })
     }
     pub fn random(rng: &mut Rng) -> Tuple {
@@ -111,6 +115,7 @@ impl Tuple {
             dev_stdin_pipe: rng.below(8) == 0,
             overlap_compile: if rng.below(8) == 0 { Some((0..10).map(|_| if rng.coin() { '1' } else { '0' }).collect()) } else { None },
             run_signal: if rng.below(10) == 0 { Some(format!("o:{}:S:{}", rng.below(4), rng.pick(&[15u32, 2, 1]))) } else { None },
+            stdout_tty: rng.below(9) == 0,
         }
     }
 }
@@ -162,6 +167,7 @@ fn child_for(t: &Tuple, args: &[&str]) -> Child {
     // run/execute also get the signal plan (a signal that arrives while the program prints)
     let guest = matches!(args.first(), Some(&"run") | Some(&"execute"));
     let plan: String = match (&t.run_signal, guest) { (Some(sp), true) if t.io_plan.is_empty() => sp.clone(), (Some(sp), true) => format!("{};{}", t.io_plan, sp), _ => t.io_plan.clone() };
+    if guest && t.stdout_tty && !t.via_stdin && !t.dev_stdin_pipe && t.io_plan.is_empty() && t.run_signal.is_none() { c.stdout_tty = true; }
     c.shim = Some(ShimCfg { seed: t.hash_seed, plan, clock: t.clock.clone(), junk: t.junk, budget: None, ..Default::default() }); // no call budget: liveness is C06's and C08's claim, and the CPU watchdog bounds the child
     c
 }
@@ -271,6 +277,13 @@ pub fn observe(source: &str, t: &Tuple) -> Obs {
     };
     let _ = std::fs::remove_dir_all(&root);
     Obs { parse, compile, run, exec, children, clock_reads, clock_went_backwards: backwards, clock_span_ns: span }
+}
+
+/// When one of the two observations had a terminal on stdout: the terminal turned LF into CR LF and stderr went to /dev/null, so
+/// carriage returns are removed on both sides and the presence of diagnostics is not compared.
+pub fn difference_tty(a: &Obs, b: &Obs) -> Option<(String, String)> {
+    let strip = |o: &Obs| { let mut o = o.clone(); o.run.stdout.retain(|c| *c != b'\r'); o.run.stderr_empty = true; if let Some(e) = o.exec.as_mut() { e.stdout.retain(|c| *c != b'\r'); e.stderr_empty = true; } o };
+    difference(&strip(a), &strip(b))
 }
 
 /// First observable that differs between two observations of the same source.
@@ -414,7 +427,8 @@ pub fn replay_case(c: &Case) -> Result<Option<(String, String)>, String> {
     if timed_out(&a) || timed_out(&b) {
         return Ok(None);
     }
-    let diff = if c.b.io_plan.contains(":y:") || c.a.io_plan.contains(":y:") || c.b.run_signal.is_some() { difference_narrow(&a, &b, c.b.io_plan.contains("o:") && c.b.io_plan.contains(":y:")) } else { difference(&a, &b) };
+    let tty = c.b.stdout_tty && !c.b.via_stdin && !c.b.dev_stdin_pipe && c.b.io_plan.is_empty() && c.b.run_signal.is_none();
+    let diff = if tty { difference_tty(&a, &b) } else if c.b.io_plan.contains(":y:") || c.a.io_plan.contains(":y:") || c.b.run_signal.is_some() { difference_narrow(&a, &b, c.b.io_plan.contains("o:") && c.b.io_plan.contains(":y:")) } else { difference(&a, &b) };
     Ok(diff.map(|(o, d)| (o, format!("{} [tuples differ in: {}]", d, varying_fields(&c.a, &c.b)))))
 }
 
@@ -434,6 +448,7 @@ fn varying_fields(a: &Tuple, b: &Tuple) -> String {
     if a.dev_stdin_pipe != b.dev_stdin_pipe { v.push("dev_stdin_pipe"); }
     if a.overlap_compile != b.overlap_compile { v.push("overlap_compile"); }
     if a.run_signal != b.run_signal { v.push("run_signal"); }
+    if a.stdout_tty != b.stdout_tty { v.push("stdout_is_a_terminal"); }
     v.join("+")
 }
 
@@ -465,6 +480,7 @@ pub fn minimise(c: &Case, oracle: &str) -> Case {
     try_field!(dev_stdin_pipe);
     try_field!(overlap_compile);
     try_field!(run_signal);
+    try_field!(stdout_tty);
     try_field!(argv0);
     try_field!(nested_cwd);
     try_field!(via_stdin);
@@ -570,7 +586,8 @@ fn exercise(name: &str, spec: &ProgSpec, rng: &mut Rng, n_tuples: usize, history
             out.counters.push(("observations_skipped_cpu_watchdog", 1));
             continue;
         }
-        let diff = if t.io_plan.contains(":y:") || t.run_signal.is_some() { difference_narrow(&base, &o, t.io_plan.contains("o:") && t.io_plan.contains(":y:")) } else { difference(&base, &o) };
+        let tty = t.stdout_tty && !t.via_stdin && !t.dev_stdin_pipe && t.io_plan.is_empty() && t.run_signal.is_none();
+        let diff = if tty { difference_tty(&base, &o) } else if t.io_plan.contains(":y:") || t.run_signal.is_some() { difference_narrow(&base, &o, t.io_plan.contains("o:") && t.io_plan.contains(":y:")) } else { difference(&base, &o) };
         if let Some((oracle, detail)) = diff {
             out.violations.push((Case { spec: spec.clone(), a: base_t.clone(), b: t.clone(), history: vec![] }, oracle, detail));
         }
@@ -624,6 +641,17 @@ pub fn limit_templates() -> Vec<(String, String)> {
     v.push(("feeny_spelling_division".into(), "print(\"~ ~ ~ ~\\n\", (-7).div(2), (-7).mod(2), 7.div(-2), 7.mod(-2));\nprint(\"~\\n\", (-2147483648).div(-1))\n".into()));
     v.push(("feeny_spelling_comparisons".into(), "print(\"~ ~ ~ ~ ~ ~ ~ ~\\n\", 1.le(2), 2.ge(2), 1.lt(1), 2.gt(1), 1.eq(1), 1.neq(1), 1.eq(null), 1.neq(true));\nprint(\"~ ~ ~ ~ ~ ~\\n\", true.and(false), true.or(false), true.eq(true), false.neq(1), null.eq(null), null.neq(0))\n".into()));
     v.push(("operators_vs_spellings_side_by_side".into(), "let a = 2147483000;\nlet b = 9999;\nprint(\"~ ~\\n\", a + b, a.add(b));\nprint(\"~ ~\\n\", a * b, a.mul(b));\nprint(\"~ ~\\n\", (0 - a) - b, (0 - a).sub(b));\nprint(\"~ ~\\n\", a % b, a.mod(b))\n".into()));
+    // a global variable named like a global function (separate namespaces: `run` accepts it, so must every loader)
+    v.push(("global_variable_named_like_function".into(), "function size() -> 3;\nlet size = size();\nprint(\"~ ~\\n\", size, size())\n".into()));
+    v.push(("local_and_field_and_method_named_alike".into(), "let o = object begin let v = 1; function v() -> 2; end;\nlet v = o.v;\nprint(\"~ ~\\n\", v, o.v())\n".into()));
+    // a tower of 100 objects that define an operator, addressed through the word spelling of that operator (and the reverse): an
+    // unknown method on every level — whatever table an implementation looks names up in, hits may not depend on the hash seed
+    {
+        let mut t = String::from("let o = 0;\nlet i = 0;\nwhile i < 100 do begin o <- object extends o begin function +(x) -> 1000 + x; function le(x) -> true; end; i <- i + 1 end;\n");
+        v.push(("tower_of_objects_operator_called_by_word_spelling".into(), format!("{}print(\"~\\n\", o.add(1))\n", t)));
+        t.push_str("print(\"~\\n\", o <= 1)\n");
+        v.push(("tower_of_objects_word_spelling_called_by_operator".into(), t));
+    }
     v.push(("empty_program".into(), "\n".into()));
     v.push(("only_function".into(), "function f() -> 1\n".into()));
     v.push(("function_last_in_top".into(), "print(\"a\\n\");\nfunction f() -> 1\n".into()));
